@@ -19,6 +19,19 @@ T7 = [
     ("any_eq", r"EXTRA_FIELD_MAPPING\.iter\(\)\.any\(\|&mapped\| mapped == kind\)", "shim_slice_contains_u16(&EXTRA_FIELD_MAPPING, kind)", "assumed: result == (exists i. a[i] == k)"),
 ]
 
+# T8: type-position rewrites forced by the shims (Verus cannot encode `dyn Trait` with a supertrait)
+T8 = [
+    ("dyn_read_a", r"&'a mut dyn (?:io::|std::io::)?Read\b", "DynRead<'a>", "trait object replaced by the opaque shim DynRead (same ghost state; dispatch is irrelevant to the contracts)"),
+    ("dyn_read", r"&mut dyn (?:io::|std::io::)?Read\b", "DynRead<'_>", "same"),
+]
+def apply_t8(text, where, log):
+    for name, rx, rep, note in T8:
+        cnt = len(re.findall(rx, text))
+        if cnt:
+            text = re.sub(rx, rep, text)
+            log.append("T8 %s: rule `%s` applied %d time(s) [%s]" % (where, name, cnt, note))
+    return text
+
 _file_cache = {}
 def file_tokens(rel):
     p = os.path.join(REPO, rel)
@@ -240,6 +253,8 @@ def pub_fields(toks, log, where):
             depth_angle += 1
         elif s == ">":
             depth_angle -= 1
+        elif s == ">>":
+            depth_angle -= 2
         elif s in ("{", "(") and depth_angle == 0:
             j = i; break
         elif s == ";" and depth_angle == 0:
@@ -272,7 +287,9 @@ def pub_fields(toks, log, where):
                 angle += 1
             elif t.s == ">":
                 angle -= 1
-            elif t.s == "," and depth == 0 and angle == 0:
+            elif t.s == ">>":
+                angle -= 2
+            elif t.s == "," and depth == 0 and angle <= 0:
                 expect = True
         i += 1
     if ins:
@@ -283,6 +300,26 @@ def pub_fields(toks, log, where):
             out.append(Tok("id", "pub ", t.pos, t.line))
         out.append(t)
     return out
+
+def _emit_tokens_t8(unit, toks, file, where):
+    """emit tokens line by line so T8 regexes (which span several tokens) can be applied per source line"""
+    cur, cur_line = "", None
+    def flush():
+        nonlocal cur, cur_line
+        if cur:
+            unit.out.write(apply_t8(cur, where, unit.log), ("src", file, cur_line))
+        cur, cur_line = "", None
+    for t in toks:
+        parts = t.s.split("\n")
+        for n, part in enumerate(parts):
+            if n > 0:
+                flush()
+                unit.out.write("\n", None)
+            if part:
+                if cur_line is None:
+                    cur_line = t.line + n
+                cur += part
+    flush()
 
 def emit_tokens(out, toks, file):
     for t in toks:
@@ -319,7 +356,7 @@ def add_item(unit, file, path, opts=()):
             unit.log.append("T9 %s: item made pub" % where)
     unit.out.nl()
     first_line = unit.out.lineno()
-    emit_tokens(unit.out, toks, file)
+    _emit_tokens_t8(unit, toks, file, where)
     unit.out.nl()
     unit.items.append({"file": file, "path": path, "sha256": hashlib.sha256(orig.encode()).hexdigest(),
                        "src_lines": [it.toks[0].line, it.toks[-1].line], "out_lines": [first_line, unit.out.lineno() - 1]})
@@ -515,7 +552,7 @@ def add_fn(unit, fs):
         sigt = sigt[1:]
     while sigt and sigt[-1].k == "ws":
         sigt = sigt[:-1]
-    emit_tokens(o, sigt, fs.file)
+    _emit_tokens_t8(unit, sigt, fs.file, where)
     o.nl()
     clauses = []
     for kind, lst in (("requires", fs.requires), ("ensures", fs.ensures)):
@@ -584,25 +621,28 @@ def add_fn(unit, fs):
     for name, rx, rep, note in T7:
         cnt = len(re.findall(rx, whole))
         if cnt:
-            new = re.sub(rx, rep, whole)
+            # keep the line structure: a match spanning several lines is replaced by the text plus the newlines it contained
+            new = re.sub(rx, lambda m_, rep=rep: m_.expand(rep) + "\n" * m_.group(0).count("\n"), whole)
             if new.count("\n") != whole.count("\n"):
-                # keep the line structure: pad
-                lost = whole.count("\n") - new.count("\n")
-                raise ScanError("T7 %s changes the number of lines in %s (%d)" % (name, fs.ident, lost))
+                raise ScanError("T7 %s changes the number of lines in %s" % (name, fs.ident))
             whole = new
             unit.log.append("T7 %s: rule `%s` applied %d time(s) [%s]" % (where, name, cnt, note))
+    whole = apply_t8(whole, where, unit.log)
     for rx, rep in fs.rewrites:
         cnt = len(re.findall(rx, whole))
         if not cnt:
             # the construct is gone: nothing to rewrite; Verus decides whether the new text is acceptable
             unit.log.append("T7x %s: per-function rewrite /%s/ not applicable (0 matches)" % (where, rx))
             continue
-        new = re.sub(rx, rep, whole)
+        new = re.sub(rx, lambda m_, rep=rep: m_.expand(rep) + "\n" * m_.group(0).count("\n"), whole)
         if new.count("\n") != whole.count("\n"):
             raise ScanError("rewrite changes line count in %s" % fs.ident)
         whole = new
         unit.log.append("T7x %s: per-function rewrite /%s/ => %s (%d)" % (where, rx, rep, cnt))
     blines = whole.split("\n")
+    if fs.nobody:
+        # contract only: the body is not verified here (it is in another unit) and is not compiled either
+        blines, bmeta = [" unimplemented!() "], [("tmpl", fs.ident, 0)]
     for l, m in zip(blines, bmeta):
         o.write(l, m)
         o.write("\n", None)
